@@ -138,7 +138,7 @@ def work_zoo(plan):
 # ---- embedding sites ------------------------------------------------------------------------------------------------------
 
 SITES = ['AddVariable', 'SetEquationRightHandSide', 'AddCashFlow-eqn', 'AddTermToEquation', 'AddSupplier-eqn', 'GenerateAssetWeighting',
-         'AddGlobalEquation', 'AddVariable-self']
+         'AddGlobalEquation', 'AddVariable-self', 'AddTermToEquation-product', 'AddCashFlow-product-term', 'Equation-parsed-product']
 TEMPLATES = ['{N}', '2*{N} + 1', '({N} - 3)*{N}', '{N}/4 + LOCALX']
 
 
@@ -150,7 +150,7 @@ def site_cases(tier):
                 for ti, t in enumerate(TEMPLATES):
                     if tier == 'quick' and ti in (2,) and ncountry == 1:
                         continue
-                    if site == 'AddTermToEquation' and ti != 0:
+                    if site in ('AddTermToEquation', 'AddTermToEquation-product', 'AddCashFlow-product-term', 'Equation-parsed-product') and ti != 0:
                         continue
                     cases.append((site, when, ncountry, t))
     return cases
@@ -194,6 +194,36 @@ def build_site(case):
         host.AddTermToEquation('PROBE', N)
         expr = 'LOCALX + ' + N
         owner, local = host, 'PROBE'
+    elif site in ('AddTermToEquation-product', 'AddCashFlow-product-term', 'Equation-parsed-product'):
+        # two requested names combined in a product/quotient that the framework stores as a (non-opaque) Term
+        M = bus.GetVariableName('F')
+        info['second'] = (bus, 'F', M)
+        if site == 'AddTermToEquation-product':
+            host.AddVariable('PROBE', 'probe', 'LOCALX')
+            host.EquationBlock['PROBE'].TermList = []
+            host.AddTermToEquation('PROBE', 'LOCALX')
+            host.AddTermToEquation('PROBE', N + '*' + M)
+            host.AddTermToEquation('PROBE', '-' + M + '/' + N)
+            expr = 'LOCALX + ' + N + '*__M__ - __M__/' + N
+            owner, local = host, 'PROBE'
+        elif site == 'AddCashFlow-product-term':
+            # a plain sector nobody else books flows on, so that its ledger is exactly LAG_F + the product term
+            from sfc_models.sector import Sector as _Sector
+            if when == 'after':
+                host = _Sector(ctx['CA'], 'PRB')
+                model._GenerateFullSectorCodes()
+            else:
+                host = _Sector(ctx['CA'], 'PRB')
+            host.AddCashFlow('+' + N + '*' + M, is_income=False)
+            expr = None
+            owner, local = host, 'F'
+            info['ledger'] = N + '*__M__'
+        else:
+            from sfc_models.equation import Equation
+            host.AddVariableFromEquation(Equation('PROBE', 'probe', N + '/' + M))
+            expr = N + '/__M__'
+            owner, local = host, 'PROBE'
+        return ctx, owner, local, expr, N, target_sector, target_local, host, info
     elif site == 'AddSupplier-eqn':
         # second supplier of the goods market with an allocation rule that embeds the requested name
         other = sd.FixedMarginBusinessMultiOutput(ctx['CA'], 'BUS2', market_list=[ctx['CA.GOOD']])
@@ -212,14 +242,14 @@ def build_site(case):
         owner, local = None, 'PROBE'
     else:
         raise ValueError(site)
-    return ctx, owner, local, expr, N, target_sector, target_local, host
+    return ctx, owner, local, expr, N, target_sector, target_local, host, info
 
 
 def work_site(case):
     site, when, ncountry, template = case
     rec = {'plan': 'site:%s:%s:%dcountry:%s' % case, 'case': 'site', 'obs': [], 'solver_s': 0.0, 'queries': 0}
     try:
-        ctx, owner, local, expr, N, tsec, tloc, host = build_site(case)
+        ctx, owner, local, expr, N, tsec, tloc, host, info = build_site(case)
     except Exception as e:
         rec['build_error'] = 'site construction failed: %r' % (e,)
         return rec
@@ -245,10 +275,19 @@ def work_site(case):
     hostx = canonical(model, host, 'LOCALX')
     if owner is not None and 'LOCALX' in owner.EquationBlock:
         hostx = canonical(model, owner, 'LOCALX')
+    second = None
+    if 'second' in info:
+        second = canonical(model, info['second'][0], info['second'][1])
+    if expr is None:
+        # ledger site: F of the host must be its lagged value plus the product term
+        expr = 'LAG_F__ + ' + info['ledger']
     intended_txt = expr.replace(N, '__REF__').replace('{HOSTX}', '__HOSTX__').replace('LOCALX', '__HOSTX__')
+    if 'second' in info:
+        intended_txt = intended_txt.replace(info['second'][2], '__M__')
+    lagf = canonical(model, host, 'LAG_F')
     D = Decider()
     try:
-        intended = to_z3(intended_txt, lambda n: var(referent) if n == '__REF__' else (var(hostx) if n == '__HOSTX__' else var(n)))
+        intended = to_z3(intended_txt, lambda n: var(referent) if n == '__REF__' else (var(hostx) if n == '__HOSTX__' else (var(second) if n == '__M__' else (var(lagf) if n == 'LAG_F__' else var(n)))))
         emitted = to_z3(final[cname], var)
         r, mdl = D.decide([intended != emitted], ladder=False, timeout_ms=20000)
     except Untranslatable as e:
